@@ -479,6 +479,7 @@ func runC14(rc *fw.RunCtx) {
 	expected := "[" + strings.Join(prog.Expected, ", ") + "]"
 	hostile := ""
 	nworkers := 0
+	preImport := false
 	switch {
 	case mode == 0:
 		hostile = hostileImports[g.Intn(len(hostileImports))]
@@ -494,10 +495,24 @@ func runC14(rc *fw.RunCtx) {
 				targets = append(targets, i)
 			}
 		}
-		b.WriteString("func worker() {\n")
+		// in half of the runs the spawning script has already imported the
+		// modules: the goroutines' imports must then find them (one body run,
+		// one shared state), which does not depend on the known finding
+		preImport = g.Bool()
+		if preImport {
+			for k, i := range targets {
+				st, _ := importStmt(prog.Mods[i], g.Intn(5), fmt.Sprintf("pre%d", k))
+				b.WriteString(st + "\n")
+			}
+		}
+		// module state is shared between the goroutines, and a bump is a
+		// read-modify-write over several instructions: the script serialises the
+		// bumps with a one-slot channel (unsynchronised sharing is the script's
+		// own responsibility)
+		b.WriteString("lock := chan(1)\nfunc worker() {\n")
 		for k, i := range targets {
 			st, bind := importStmt(prog.Mods[i], g.Intn(3), fmt.Sprintf("w%d", k))
-			fmt.Fprintf(&b, "  %s\n  %s.bump()\n", st, bind)
+			fmt.Fprintf(&b, "  %s\n  lock <- 1\n  %s.bump()\n  <-lock\n", st, bind)
 		}
 		b.WriteString("  return 1\n}\nts := []\n")
 		fmt.Fprintf(&b, "for i := 0; i < %d; i++ { ts.append(spawn(worker)) }\n", nworkers)
@@ -582,6 +597,9 @@ func runC14(rc *fw.RunCtx) {
 		rc.Hit("mode_hostile")
 	case mode <= 2:
 		rc.Hit("mode_concurrent")
+		if preImport {
+			rc.Hit("mode_concurrent_preimported")
+		}
 	default:
 		rc.Hit("mode_sequential")
 	}
@@ -647,6 +665,9 @@ func runC14(rc *fw.RunCtx) {
 		cls := "once/sequential"
 		if nworkers > 0 {
 			cls = "once/concurrent-importers"
+			if preImport {
+				cls = "once/goroutine-reimport-of-loaded-module"
+			}
 		}
 		rc.Violate(cls, "module bodies ran more than once in one evaluation: %v", over)
 		return
@@ -684,6 +705,9 @@ func runC14(rc *fw.RunCtx) {
 		cls := "state/sequential"
 		if nworkers > 0 {
 			cls = "state/concurrent-importers"
+			if preImport {
+				cls = "state/goroutine-reimport-of-loaded-module"
+			}
 		} else if prog.FaultMod >= 0 {
 			cls = "state/after-failed-import"
 		}
